@@ -41,6 +41,14 @@ CHECKS = [
              "are checked on every execution.",
      "design_ref": "DESIGN.md §5 C14", "note": ENV_NOTE,
      "technique": "exhaustive abort-position enumeration x deviation-bounded stateless schedule exploration of the implementation"},
+    {"property_id": "C10", "level": "model_checking",
+     "text": "Breadth-first search over all interleaved histories of connect/USER/PASS/QUIT/drop/reset/handler-error/"
+             "idle-expiry events of 2-3 sessions (server limit 1, 2, none; per-user limits 1, 2, none), the real server "
+             "being the transition function, compared step by step with a reference counter model (admission codes and "
+             "counter values) and probed black-box at every state (limit fresh sessions admitted, the next refused); "
+             "plus the disconnect races under every schedule with <= d deviations.",
+     "design_ref": "DESIGN.md §5 C10", "note": ENV_NOTE,
+     "technique": "explicit-state BFS over event histories with the implementation as transition function + reference model; deviation-bounded schedule exploration"},
 ]
 
 _ALL = [f"C{i:02d}" for i in range(1, 21)]
